@@ -58,6 +58,50 @@ def check_sink(check, key, file, line, sink, tail, msg, part, final_partial_ok, 
     return ok, why
 
 
+def ocb_transcrypt_seg(check, repo, rule="SEG"):
+    """OcbMode._transcrypt: an empty chunk is not the final call."""
+    # ---- OCB._transcrypt (payload) and update (associated data) --------------------------------------
+    OCB = "Crypto.Cipher._mode_ocb"
+    mod = repo.module(OCB)
+    fn = repo.func(mod, "OcbMode._transcrypt")
+    bad = []
+    for part in PARTITIONS:
+        sink = []
+
+        def m_aligned(i, a, kw, st, node, sink=sink):
+            # (self, in_data, in_data_len, trans_func, trans_desc) -> identity transform
+            data, n = a[0], a[1]
+            if isinstance(data, (bytes, bytearray)) and isinstance(n, int):
+                sink.append(bytes(data[:n]))
+                return bytes(data[:n])
+            sink.append(b"?")
+            return ABytes(None)
+        it = Interp(repo, max_depth=3, extra_models={OCB + ".OcbMode._transcrypt_aligned": m_aligned})
+        st = State()
+        me = it.new_obj(st, mod, repo.cls(mod, "OcbMode"), havoc=False)
+        st.heap[me.ident].update({"_cache_P": b""})
+        okp = True
+        out = []
+        for seg in cut(MSG, part) + [None]:
+            res = it.run(mod, fn, {"in_data": seg, "trans_func": UNK, "trans_desc": "x"}, self_obj=me, state=st)
+            rets = res.returns()
+            if len(rets) != 1 or res.raises() or not isinstance(rets[0].value, (bytes, bytearray)):
+                okp = False
+                break
+            out.append(bytes(rets[0].value))
+            st = rets[0].state
+            st.frames = [{}]
+        sink2 = [x for x in sink if len(x) > 0]
+        ok, why = check_sink(check, "", "", 0, sink2, b"", MSG, part, True, "")
+        if okp and b"".join(out) != MSG:
+            ok, why = False, "returned pieces do not concatenate to the transformed message"
+        if not okp or not ok:
+            bad.append("%s: %s" % (part, why or "indefinite"))
+    check.ob(rule, rule + "|ocb._transcrypt", not bad, mod.path, fn.lineno,
+             extracted="; ".join(bad[:3]) if bad else "%d partitions (incl. empty segments while bytes are pending): whole blocks to the native layer, the partial block only in the final call" % len(PARTITIONS),
+             expected="an empty segment is not the final call; only encrypt()/decrypt() without argument flushes the partial block")
+
+
 def run(check, ctx):
     repo = ctx.repo
     # ---- GCM._update ------------------------------------------------------------------------
@@ -120,46 +164,9 @@ def run(check, ctx):
     check.ob("SEG", "SEG|ccm._update", not bad, mod.path, fn.lineno,
              extracted="; ".join(bad[:3]) if bad else "%d partitions: CBC-MAC receives whole blocks in order" % len(PARTITIONS),
              expected="segmentation-independent feeding of the CBC-MAC")
-    # ---- OCB._transcrypt (payload) and update (associated data) --------------------------------------
+    ocb_transcrypt_seg(check, repo)
     OCB = "Crypto.Cipher._mode_ocb"
     mod = repo.module(OCB)
-    fn = repo.func(mod, "OcbMode._transcrypt")
-    bad = []
-    for part in PARTITIONS:
-        sink = []
-
-        def m_aligned(i, a, kw, st, node, sink=sink):
-            # (self, in_data, in_data_len, trans_func, trans_desc) -> identity transform
-            data, n = a[0], a[1]
-            if isinstance(data, (bytes, bytearray)) and isinstance(n, int):
-                sink.append(bytes(data[:n]))
-                return bytes(data[:n])
-            sink.append(b"?")
-            return ABytes(None)
-        it = Interp(repo, max_depth=3, extra_models={OCB + ".OcbMode._transcrypt_aligned": m_aligned})
-        st = State()
-        me = it.new_obj(st, mod, repo.cls(mod, "OcbMode"), havoc=False)
-        st.heap[me.ident].update({"_cache_P": b""})
-        okp = True
-        out = []
-        for seg in cut(MSG, part) + [None]:
-            res = it.run(mod, fn, {"in_data": seg, "trans_func": UNK, "trans_desc": "x"}, self_obj=me, state=st)
-            rets = res.returns()
-            if len(rets) != 1 or res.raises() or not isinstance(rets[0].value, (bytes, bytearray)):
-                okp = False
-                break
-            out.append(bytes(rets[0].value))
-            st = rets[0].state
-            st.frames = [{}]
-        sink2 = [x for x in sink if len(x) > 0]
-        ok, why = check_sink(check, "", "", 0, sink2, b"", MSG, part, True, "")
-        if okp and b"".join(out) != MSG:
-            ok, why = False, "returned pieces do not concatenate to the transformed message"
-        if not okp or not ok:
-            bad.append("%s: %s" % (part, why or "indefinite"))
-    check.ob("SEG", "SEG|ocb._transcrypt", not bad, mod.path, fn.lineno,
-             extracted="; ".join(bad[:3]) if bad else "%d partitions (incl. empty segments while bytes are pending): whole blocks to the native layer, the partial block only in the final call" % len(PARTITIONS),
-             expected="an empty segment is not the final call; only encrypt()/decrypt() without argument flushes the partial block")
     fn = repo.func(mod, "OcbMode.update")
     bad = []
     for part in PARTITIONS:
